@@ -34,7 +34,13 @@ Verdicts(rec) ==
           ELSE IF rec.ai.r = "err" THEN [v |-> "importer-raised", env |-> 0]
           ELSE IF rec.ai.r # "ok" THEN [v |-> "SKIP", env |-> 0]
           ELSE JudgeTree(rec.ai.e, rec.py)
-    IN [p |-> parserV, a |-> astV]
+        \* the same importer instance reused over the whole stream of strings
+        ast2V ==
+          IF rec.syn THEN [v |-> "OK", env |-> 0]
+          ELSE IF rec.ai2.r = "err" THEN [v |-> "importer-raised", env |-> 0]
+          ELSE IF rec.ai2.r # "ok" THEN [v |-> "SKIP", env |-> 0]
+          ELSE JudgeTree(rec.ai2.e, rec.py)
+    IN [p |-> parserV, a |-> astV, a2 |-> ast2V]
 
 \* drift: the real parser's tree against the transcription's prediction (exact)
 Drift(rec) ==
@@ -53,7 +59,8 @@ OracleCheck(rec) ==
 Report ==
     Idx <= Len(Recs) =>
       LET rec == Recs[Idx] v == Verdicts(rec) d == Drift(rec) o == OracleCheck(rec) IN
-      /\ ((v.p.v = "OK" /\ v.a.v = "OK") \/ PrintT(ToJson([id |-> rec.id, p |-> v.p, a |-> v.a])))
+      /\ ((v.p.v = "OK" /\ v.a.v = "OK" /\ v.a2.v = "OK")
+          \/ PrintT(ToJson([id |-> rec.id, p |-> v.p, a |-> v.a, a2 |-> v.a2])))
       /\ (d = "" \/ PrintT(ToJson([id |-> rec.id, drift |-> d])))
       /\ (o = "" \/ PrintT(ToJson([id |-> rec.id, oracle |-> o])))
 =============================================================================
